@@ -1,1 +1,107 @@
-//! (to be filled)
+//! RNG environments handed to the code under test. Every draw is owned by the harness.
+
+use rand::RngCore;
+
+/// Feeds `sampler_z` one 17-byte answer per iteration (9 bytes BaseSampler, 1 byte sign, 7 bytes
+/// BerExp); the answer for iteration k is produced on demand by `next`. rand 0.8 draws a u8 (and
+/// each element of a [u8; N]) as `next_u32() as u8`, so every byte costs exactly one next_u32; the
+/// upper 24 bits are filled with a marker so that code using more than the low byte is noticed.
+pub struct IterRng<F: FnMut(usize) -> [u8; 17]> {
+    next: F,
+    cur: [u8; 17],
+    pos: usize,
+    pub iterations: usize,
+    pub max_iterations: usize,
+    pub draws: u64,
+    pub log: Vec<[u8; 17]>,
+}
+
+pub const HORIZON_PANIC: &str = "verif-horizon";
+
+impl<F: FnMut(usize) -> [u8; 17]> IterRng<F> {
+    pub fn new(next: F, max_iterations: usize) -> Self {
+        IterRng { next, cur: [0u8; 17], pos: 17, iterations: 0, max_iterations, draws: 0, log: vec![] }
+    }
+    fn byte(&mut self) -> u8 {
+        if self.pos == 17 {
+            if self.iterations >= self.max_iterations {
+                std::panic::panic_any(HORIZON_PANIC);
+            }
+            self.cur = (self.next)(self.iterations);
+            self.log.push(self.cur);
+            self.iterations += 1;
+            self.pos = 0;
+        }
+        let b = self.cur[self.pos];
+        self.pos += 1;
+        self.draws += 1;
+        b
+    }
+    /// true when the last answer was consumed completely (the sampler stops at answer boundaries)
+    pub fn at_boundary(&self) -> bool {
+        self.pos == 17
+    }
+}
+
+impl<F: FnMut(usize) -> [u8; 17]> RngCore for IterRng<F> {
+    fn next_u32(&mut self) -> u32 {
+        0xA5C3_9600 | self.byte() as u32
+    }
+    fn next_u64(&mut self) -> u64 {
+        let lo = self.next_u32() as u64;
+        let hi = self.next_u32() as u64;
+        (hi << 32) | lo
+    }
+    fn fill_bytes(&mut self, dest: &mut [u8]) {
+        for d in dest.iter_mut() {
+            *d = self.byte();
+        }
+    }
+    fn try_fill_bytes(&mut self, dest: &mut [u8]) -> Result<(), rand::Error> {
+        self.fill_bytes(dest);
+        Ok(())
+    }
+}
+
+/// Any RNG with a draw budget: exceeding it raises the horizon panic (rejection loops under a bad key
+/// or adversarial answers never go quiescent on their own).
+pub struct Bounded<R: RngCore> {
+    pub inner: R,
+    pub words: u64,
+    pub limit: u64,
+}
+
+impl<R: RngCore> Bounded<R> {
+    pub fn new(inner: R, limit: u64) -> Self {
+        Bounded { inner, words: 0, limit }
+    }
+    fn tick(&mut self, k: u64) {
+        self.words += k;
+        if self.words > self.limit {
+            std::panic::panic_any(HORIZON_PANIC);
+        }
+    }
+}
+
+impl<R: RngCore> RngCore for Bounded<R> {
+    fn next_u32(&mut self) -> u32 {
+        self.tick(1);
+        self.inner.next_u32()
+    }
+    fn next_u64(&mut self) -> u64 {
+        self.tick(2);
+        self.inner.next_u64()
+    }
+    fn fill_bytes(&mut self, dest: &mut [u8]) {
+        self.tick((dest.len() as u64 + 3) / 4);
+        self.inner.fill_bytes(dest)
+    }
+    fn try_fill_bytes(&mut self, dest: &mut [u8]) -> Result<(), rand::Error> {
+        self.fill_bytes(dest);
+        Ok(())
+    }
+}
+
+/// draw budget for one signature: 64 times what an ordinary signature consumes (2n sampler calls of
+/// about two 17-byte iterations each)
+pub const SIGN_DRAW_LIMIT: u64 = 64 * 2 * 1024 * 2 * 17;
